@@ -205,6 +205,31 @@ def impl_case(case):
     return res
 
 
+def impl_repeat(case):
+    """the same call twice in ONE process on the same, unmodified input file (the output file is restored in between): the second result must equal the first —
+    the selected slot takes the input's annotation (wrapped ONCE), whatever happened earlier in the process"""
+    import cdd.class_.parse  # noqa: F401
+    from cdd.compound.sync_properties import sync_properties
+
+    d = _tmpdir()
+    a, b = os.path.join(d, "input_.py"), os.path.join(d, "output_.py")
+    with open(a, "wt") as f:
+        f.write(case["in_src"])
+    outs = []
+    for _ in range(2):
+        with open(b, "wt") as f:
+            f.write(case["out_src"])
+        try:
+            sync_properties(case["eval"], a, [case["ip"]], b, [case["op"]], case["wrap"])
+            with open(b, "rt") as f:
+                outs.append(f.read())
+        except BaseException as e:  # noqa
+            outs.append("raises:" + core.exc_name(e))
+    with open(a, "rt") as f:
+        same_in = f.read() == case["in_src"]
+    return {"outs": outs, "input_same": same_in}
+
+
 def slot_facts(case):
     """where the selected output slot sits (for the input distribution in the evidence)"""
     try:
@@ -976,6 +1001,16 @@ def run(chk: core.Check) -> int:
     chk.oblige("correspondence: sync_properties (real files) = SyncProps.syncProperties + emit canonicaliser on %d cases (%d outside the model's template/eval domain)" % (n_cmp, n_skip),
                "correspondence", model is not None and n_dis == 0 and n_cmp > 0, "%d disagreements" % n_dis)
     chk.coverage["distribution"] = dist
+    # ---- the same call twice in one process ------------------------------------------------------------------------
+    rep = [c for c, r in zip(cases, impl) if r.get("result") == "ok"]
+    rep = [c for c in rep if c["wrap"] is not None][: (60 if chk.quick else 600)] + [c for c in rep if c["wrap"] is None][: (30 if chk.quick else 300)]
+    for c, r in zip(rep, core.pmap(impl_repeat, rep, chunksize=8)):
+        chk.count(("repeat", c["in_src"], c["out_src"], c["ip"], c["op"], c["wrap"], c["eval"]), True)
+        if r["outs"][0] != r["outs"][1] or not r["input_same"]:
+            chk.failure({"kind": "repeat-differs", "wrap": c["wrap"] is not None, "eval": bool(c["eval"])},
+                        "the same sync_properties call, run twice in one process on the same unmodified input (output restored in between), writes two different outputs" if r["input_same"]
+                        else "sync_properties modified its input file", {"fn": "repeat", "case": {x: c[x] for x in ("in_src", "out_src", "ip", "op", "wrap", "eval")}, "outs": r["outs"]})
+    chk.coverage["repeated_calls_in_one_process"] = len(rep)
     # ---- several pairs in one call ----------------------------------------------------------------------------
     mcases = list(corpus_multi)
     for _ in range(700 if chk.quick else 6000):
@@ -1664,6 +1699,13 @@ def replay(path: str) -> int:
             want = {x: y for x, y in want.items() if x not in ("model",)}
             return 1 if any(all(sig.get(k) == v for k, v in want.items()) for sig, _ in fails) else 0
         return 1 if fails else 0
+    if rp.get("fn") == "repeat":
+        r = impl_repeat(rp["case"])
+        bad = r["outs"][0] != r["outs"][1] or not r["input_same"]
+        print("replay: the same call twice in one process: %s" % ("outputs differ" if bad else "same output"))
+        print("--- first ---\n%s--- second ---\n%s" % tuple(r["outs"]))
+        shutil.rmtree(TMP_ROOT, ignore_errors=True)
+        return 1 if bad else 0
     if rp.get("fn") != "sync":
         print("replay: nothing to replay in %s" % path)
         return 2
